@@ -62,6 +62,22 @@ def run(tier, seed):
         b = rng.randbytes(32) + b"\x45" + b"\x00\x00\x00\x05" + rng.randbytes(16) + cid_len.to_bytes(2, "big") + rng.randbytes(cid_len) + bad
         run_one(b, "bad-eddsa")
         run_one(b + b"\x00", "bad-eddsa-suffix", "reject")
+    # ... and the very same 17 bytes occurring LATER than the start of the key: inside an extension value, as a nested map of the
+    # extensions, inside a coordinate of a well-formed key - nothing may be rewritten there
+    pat = bytes.fromhex("a301634f4b500327206745643235353139")
+    for cid_len in (1, 16):
+        rp_h, aag, cid = rng.randbytes(32), rng.randbytes(16), rng.randbytes(cid_len)
+        for key_obj, ext_obj in (({1: 2, 3: -7, -1: 1, -2: rng.randbytes(32), -3: rng.randbytes(32)}, {"credBlob": pat + rng.randbytes(8)}),
+                                 ({1: 2, 3: -7, -1: 1, -2: rng.randbytes(32), -3: rng.randbytes(32)}, {"nested": {1: "OKP", 3: -8, -1: "Ed25519"}}),
+                                 ({1: 2, 3: -7, -1: 1, -2: rng.randbytes(7) + pat + rng.randbytes(8), -3: rng.randbytes(32)}, None),
+                                 ({1: 2, 3: -7, -1: 1, -2: rng.randbytes(32), -3: pat + rng.randbytes(15)}, {"credBlob": b"x"}),
+                                 ({1: 3, 3: -257, -1: rng.randbytes(100) + pat + rng.randbytes(139), -2: b"\x01\x00\x01"}, None)):
+            kb = cbor2.dumps(key_obj)
+            eb = cbor2.dumps(ext_obj) if ext_obj is not None else None
+            fl = 0x45 | (0x80 if eb is not None else 0)
+            b = rp_h + bytes([fl]) + (7).to_bytes(4, "big") + aag + cid_len.to_bytes(2, "big") + cid + kb + (eb or b"")
+            assert pat in b[55 + cid_len + 1:]
+            run_one(b, "bad-eddsa-pattern-elsewhere", {"rp": rp_h, "flags": fl, "count": 7, "att": (aag, cid, kb), "ext": eb})
     # hostile CBOR in the COSE-key slot and in the extension slot (exceptions outside cbor2's own hierarchy, recursion)
     for item in cborgen.hostile_cbor():
         hdr_at = rng.randbytes(32) + b"\x41" + b"\x00\x00\x00\x01" + rng.randbytes(16) + b"\x00\x02" + b"id"
